@@ -11,6 +11,7 @@ package main
 
 import (
 	"fmt"
+	"go/types"
 	"sort"
 	"strings"
 
@@ -205,4 +206,82 @@ func ruleLockBalance(c *Ctx, rule string) {
 	}
 	c.floor(rule, nAcq, 40, "lock acquisitions")
 	c.floor(rule, nRet, 40, "returns of lock-acquiring functions")
+}
+
+// ruleNoWriteAfterHandOff (C15.12): an object built in a function is complete when a goroutine is started with it.
+func ruleNoWriteAfterHandOff(c *Ctx, rule string) {
+	c.rule(rule, "no write after hand-off: once a function has started a goroutine with an object it allocated itself (as receiver, argument or captured variable of the go statement), it does not store into that object's fields any more, except under a mutex — the goroutine would read a half-built object (data race), e.g. a handler started before its context carries the transport stream")
+	w := c.W
+	lf := w.Locks()
+	nGo, nObj := 0, 0
+	for _, fn := range w.Funcs {
+		if isGenericTemplate(fn) {
+			continue
+		}
+		allInstrsLocal(fn, func(in ssa.Instruction) {
+			g, ok := in.(*ssa.Go)
+			if !ok {
+				return
+			}
+			nGo++
+			var handed []*ssa.Alloc
+			add := func(v ssa.Value) {
+				if al, isAl := origin(v).(*ssa.Alloc); isAl && al.Parent() == fn && al.Heap {
+					if pt, isP := al.Type().(*types.Pointer); isP {
+						if _, isS := pt.Elem().Underlying().(*types.Struct); isS {
+							handed = append(handed, al)
+						}
+					}
+				}
+			}
+			for _, a := range g.Call.Args {
+				add(a)
+			}
+			if mc, isMC := g.Call.Value.(*ssa.MakeClosure); isMC {
+				for _, b := range mc.Bindings {
+					add(b)
+					// a captured variable holding the pointer
+					if cell, isCell := b.(*ssa.Alloc); isCell {
+						for _, r := range *cell.Referrers() {
+							if st, isSt := r.(*ssa.Store); isSt && st.Addr == ssa.Value(cell) {
+								add(st.Val)
+							}
+						}
+					}
+				}
+			}
+			for _, obj := range handed {
+				nObj++
+				var late ssa.Instruction
+				allInstrsLocal(fn, func(x ssa.Instruction) {
+					st, isSt := x.(*ssa.Store)
+					if !isSt {
+						return
+					}
+					fb := fieldBase(st.Addr)
+					if fb == nil || origin(fb) != ssa.Value(obj) {
+						return
+					}
+					after := (x.Block() == g.Block() && instrIndex(x) > instrIndex(g)) || (x.Block() != g.Block() && reaches(g, x))
+					if !after {
+						return
+					}
+					own := typeNameOf(obj.Type())
+					for l := range lf.MustAt(x) {
+						if strings.HasPrefix(l, own+".") {
+							return // under a mutex of the object itself (the goroutine's accesses are judged by the guarded-by rule)
+						}
+					}
+					late = x
+				})
+				at := w.At(g)
+				if late != nil {
+					at = w.At(late)
+				}
+				c.check(late == nil, rule, fmt.Sprintf("%s: object handed to the goroutine started in block %d is complete", w.Short(fn), g.Block().Index), at, "no field store after the go statement", "a field of the object is stored after the goroutine that uses the object was started, and not under a mutex: the goroutine can run with the old value (data race) — for the server stream: a handler whose context lacks the transport stream, so grpc.SetHeader / SendHeader / SetTrailer fail")
+			}
+		})
+	}
+	c.floor(rule, nGo, 8, "go statements")
+	c.floor(rule, nObj, 1, "objects handed to goroutines by the function that built them")
 }
